@@ -20,3 +20,14 @@ Theorem C20_bracketed_history :
   exists l, s_log (fst (run_calls D host listened maxdepth fuel s calls)) = s_log s ++ l /\ balanced D l.
 Proof. exact run_calls_bracketed. Qed.
 Print Assumptions C20_bracketed_history.
+
+(* listeners are transparent: running with any listener set and running without listeners proceed in lock step —
+   same outcome kind, same trap, same values on the stack, same memories, globals and tables — and the log of the
+   run without listeners is the log of the run with listeners with the listener events erased *)
+From Verif Require Import Proofs.SemRelP.
+Theorem C20_transparent :
+  forall D host listened maxdepth fuel depth ii s1 s2 f is, erased D s1 s2 ->
+  out_rel D D eq (erased D) (exec D host listened maxdepth fuel depth ii s1 f is)
+                            (exec D host (fun _ => false) maxdepth fuel depth ii s2 f is).
+Proof. exact listeners_transparent. Qed.
+Print Assumptions C20_transparent.
